@@ -412,74 +412,107 @@ def check_one(sh, kind, toks, res, i, fail):
         hs = [] if res == 'hs -' else [tuple(int(x) for x in c.split(':')) for c in res[3:].split(',')]
         if set(c[1] for c in hs) != sh.present() or len(hs) != len(sh.present()):
             fail(['C11'], i, f'stream snapshot {[c[1] for c in hs]} vs present {sorted(sh.present())}')
-        sh.streams[sid] = dict(items=dict(hs), ready=[c[0] for c in hs], polled=set())
+        sh.streams[sid] = dict(items=dict(hs), ready=[c[0] for c in hs], polled=set(), all=[c[0] for c in reversed(hs)])
     elif cmd == 'spoll':
         sid = int(toks[1])
         st = sh.streams.get(sid)
         if st is None:
             raise Fail('spoll of unknown stream')
-        exp = None
+        m = re.match(r'item (\S+):(\d+)', res) if res.startswith('item') else None
+        target = None
+        if m:
+            k = int(m.group(2))
+            target = int(m.group(1)) if m.group(1).isdigit() else None
+            # C11 does not fix the ORDER in which obtainable items are yielded; it fixes WHICH items may be yielded
+            if target is None or target not in st['items'] or st['items'][target] != k:
+                fail(['C11'], i, f'stream yielded {res}: not an unresolved item of its snapshot {sorted(st["items"].items())}')
+                target = None
+            else:
+                if k not in sh.vals:
+                    fail(['C11'], i, f'stream yielded key {k} which has no value')
+                if sh.held(k):
+                    fail(['C11', 'C01'], i, f'stream yielded key {k} while a guard for it is alive')
+                elif target in st['polled']:
+                    if sh.queue.get(k, [None])[0] != target:
+                        fail(['C11', 'C03'], i, f'stream item {target} overtook the waiters {sh.queue.get(k)} of key {k}')
+                elif not sh.free(k):
+                    fail(['C11', 'C03'], i, f'stream item {target} got key {k} ahead of the waiters {sh.queue.get(k)}')
+        yielded = None
+        skipped = []
         while st['ready']:
             w = st['ready'].pop(0)
+            if w not in st['items']:
+                continue
             k = st['items'][w]
             if w in st['polled']:
                 can = (not sh.held(k)) and sh.queue.get(k, [None])[0] == w
                 if not can:
                     continue
+                if target is not None and w != target and k in sh.vals:
+                    skipped.append(w)          # another obtainable item: the implementation chose a different order
+                    continue
                 sh.queue[k].remove(w)
             else:
+                if sh.free(k) and target is not None and w != target and k in sh.vals:
+                    skipped.append(w)
+                    continue
                 st['polled'].add(w)
+                if w in st['all']:
+                    st['all'].remove(w)
+                st['all'].insert(0, w)
                 if not sh.free(k):
                     sh.queue.setdefault(k, []).append(w)
                     continue
-            # lock obtained
+            # lock obtained: resolved either way
             del st['items'][w]
+            if w in st['all']:
+                st['all'].remove(w)
             if k in sh.vals:
                 sh.guards[w] = k
-                exp = f'item {w}:{k}'
+                yielded = w
                 break
-            # valueless: dropped right away
             sh.guards[w] = k
-            sh.drop_guard(w)
-        if exp is None:
-            exp = 'end' if not st['items'] else 'pending'
-        if res != exp:
-            m = None
-            if res.startswith('item'):
-                m = re.match(r'item (\S+):(\d+)', res)
-                k = int(m.group(2)) if m else -1
-                if m and k not in st['items'].values() and k not in [kk for kk in sh.guards.values()]:
-                    fail(['C11'], i, f'stream yielded key {k} which was not part of its snapshot')
-                if k not in sh.vals:
-                    fail(['C11'], i, f'stream yielded key {k} which has no value')
-            fail(['C11'], i, f'spoll answered {res}, expected {exp}')
-            # resynchronise with what the implementation did, so that later requests can still be judged
-            if exp.startswith('item'):
-                w0 = int(exp.split()[1].split(':')[0])
-                sh.guards.pop(w0, None)
-            if res.startswith('item') and m:
-                w1 = int(m.group(1)) if m.group(1).isdigit() else None
-                if w1 is not None:
-                    st['items'].pop(w1, None)
-                    for q in sh.queue.values():
-                        if w1 in q:
-                            q.remove(w1)
-                    sh.guards[w1] = k
-            elif res == 'end':
+            sh.drop_guard(w)     # valueless: dropped right away
+        st['ready'] = skipped + st['ready']
+        if target is not None and yielded != target:
+            # the item was legal but not where the oracle's ready queue had it: take it as the implementation did
+            if yielded is not None:
+                sh.guards.pop(yielded, None)
+                pass
+            k = int(m.group(2))
+            st['items'].pop(target, None)
+            if target in st['all']:
+                st['all'].remove(target)
+            for q in sh.queue.values():
+                if target in q:
+                    q.remove(target)
+            sh.guards[target] = k
+        if not m:
+            if yielded is not None:
+                fail(['C11'], i, f'spoll answered {res} although item {yielded} (key {sh.guards[yielded]}) has a value and its key is obtainable')
+                sh.guards.pop(yielded, None)
+            elif res == 'end' and st['items']:
+                fail(['C11'], i, f'stream ended with unresolved items {sorted(st["items"].items())}')
                 for w1, k1 in list(st['items'].items()):
                     if w1 in sh.queue.get(k1, []):
                         sh.queue[k1].remove(w1)
                 st['items'].clear()
                 st['ready'] = []
+            elif res == 'pending' and not st['items']:
+                fail(['C11'], i, 'stream is pending although every item of its snapshot is resolved')
+            elif res not in ('end', 'pending'):
+                raise Fail(f'spoll answered {res}')
     elif cmd == 'sdrop':
         sid = int(toks[1])
         st = sh.streams.pop(sid, None)
         if st is None:
             raise Fail('sdrop of unknown stream')
-        for w, k in st['items'].items():
+        # FuturesUnordered drops its tasks from the head of its all-tasks list
+        order = [w for w in st['all'] if w in st['items']] + [w for w in st['items'] if w not in st['all']]
+        for w in order:
+            k = st['items'].pop(w)
             if w in sh.queue.get(k, []):
                 sh.queue[k].remove(w)
-        for k in set(st['items'].values()):
             sh.wake(k)
     elif cmd == 'into':
         exp = fmt_list([f'{k}={sh.vals[k]}' for k in sorted(sh.vals)])
